@@ -95,8 +95,10 @@ def impmn (st : St) (op is w he hi sp : String) : St × String :=
     | some i, some he, some hi, some spn =>
       let x := getInst st i
       if !x.opened then (st, "err-closed") else
-      if op ≠ "impmn" || spn > 5 then (st, "bad-op") else
+      if op ≠ "impmn" || spn > 8 then (st, "bad-op") else
       if !st.secrets.contains w then (st, "bad-op") else
+      -- variants 6-8: the same words in another letter case are not words of the list: refused, nothing changes
+      if spn > 5 then (st, "err\terr") else
       if x.led.vol.best.height ≠ 0 then (st, "unsupported") else
       match importMnemonic toy x.ks w (privPass w) coin he hi (usedOn x) x.gap (scanFuel x he hi) with
       | .error e => (st, errTok e ++ "\t" ++ errTok e)
